@@ -374,6 +374,11 @@ static void chunk_log(Chunk *pc, const char *text)
 
 void Chunk::Delete(Chunk * &pc)
 {
+   if (pc->IsNullChunk())
+   {
+      // the end-of-list sentinel is a static object
+      return;
+   }
    gChunkList.Remove(pc);
    delete pc;
    pc = Chunk::NullChunkPtr;
